@@ -127,6 +127,30 @@ var catalogue = []Mutant{
 	{ID: "odc-signature", Rules: []string{"R19.2"}, Note: "ODF chart signature misspelt", Edits: []Edit{{"internal/magic/zip.go", "opendocument.chart\"), 30)", "opendocument.charts\"), 30)"}}},
 	{ID: "zip-loop-3", Rules: []string{"R19.5"}, Note: "one entry fewer", Edits: []Edit{{"internal/magic/zip.go", "for i := 0; i < 4; i++ {", "for i := 0; i < 3; i++ {"}}},
 	{ID: "recursive-helper", Rules: []string{"R16.1"}, Note: "a new input-driven recursion", Edits: []Edit{{"internal/magic/magic.go", "func isWS(b byte) bool {", "func skipWSRec(in []byte) []byte {\n\tif len(in) > 0 && isWS(in[0]) {\n\t\treturn skipWSRec(in[1:])\n\t}\n\treturn in\n}\n\nvar _ = skipWSRec\n\nfunc isWS(b byte) bool {"}}},
+	// small mutations (round 7 of the seeds, mutation sweep): one clause each of the rules added for them
+	{ID: "xml-single-quote", Rules: []string{"R12.8"}, Note: "xmlEncoding accepts only the double quote", Edits: []Edit{{"internal/charset/charset.go", "if v[0] != '\\'' && v[0] != '\"' {", "if v[0] != '\"' {"}}},
+	{ID: "html-selfclosing", Rules: []string{"R12.9"}, Note: "self-closing <meta/> skipped", Edits: []Edit{{"internal/charset/charset.go", "case html.StartTagToken, html.SelfClosingTagToken:", "case html.StartTagToken:"}}},
+	{ID: "xml-answer-dropped", Rules: []string{"R12.10"}, Note: "FromXML ignores what its reader found", Edits: []Edit{{"internal/charset/charset.go", "if cset := fromXML(content); cset != \"\" {", "if cset := fromXML(content); false {"}}},
+	{ID: "xml-procinst-negated", Rules: []string{"R12.10"}, Note: "label returned only when the token is not a processing instruction", Edits: []Edit{{"internal/charset/charset.go", "t, ok := rawT.(xml.ProcInst)\n\tif !ok {", "t, ok := rawT.(xml.ProcInst)\n\tif ok {"}}},
+	{ID: "charset-attr-lost", Rules: []string{"R12.10"}, Note: "value of the charset attribute not kept", Edits: []Edit{{"internal/charset/charset.go", "\t\t\t\t\tname = string(val)\n", ""}}},
+	{ID: "pragma-quotes-and", Rules: []string{"R12.11"}, Note: "quote test can never hold", Edits: []Edit{{"internal/charset/charset.go", "q == '\"' || q == '\\''", "q == '\"' && q == '\\''"}}},
+	{ID: "pragma-closing-from-opening", Rules: []string{"R12.11"}, Note: "closing quote searched from the opening one", Edits: []Edit{{"internal/charset/charset.go", "\t\t\ts = s[1:]\n\t\t\tcloseQuote := strings.IndexRune(s, rune(q))", "\t\t\tcloseQuote := strings.IndexRune(s, rune(q))"}}},
+	{ID: "pragma-no-trim-before-eq", Rules: []string{"R12.11"}, Note: "whitespace before = not skipped", Edits: []Edit{{"internal/charset/charset.go", "\t\ts = s[csLoc+len(\"charset\"):]\n\t\ts = strings.TrimLeft(s, \" \\t\\n\\f\\r\")\n", "\t\ts = s[csLoc+len(\"charset\"):]\n"}}},
+	{ID: "index-unguarded", Rules: []string{"R01.1"}, Note: "xmlEncoding slices at the search result without testing for -1 (Index contract holds for a match only)", Edits: []Edit{{"internal/charset/charset.go", "\tidx := strings.Index(s, param)\n\tif idx == -1 {\n\t\treturn \"\"\n\t}\n", "\tidx := strings.Index(s, param)\n"}}},
+	{ID: "lookback-two", Rules: []string{"R11.5"}, Note: "look-back window of two bytes", Edits: []Edit{{"internal/charset/charset.go", "i > len(content)-4; i--", "i > len(content)-3; i--"}}},
+	{ID: "cut-unreachable", Rules: []string{"R11.5"}, Note: "cut behind a constant-false test", Edits: []Edit{{"internal/charset/charset.go", "if utf8.RuneStart(b) {", "if utf8.RuneStart(b) && false {"}}},
+	{ID: "bom-contains", Rules: []string{"R07.3"}, Note: "mark looked for anywhere", Edits: []Edit{{"internal/charset/charset.go", "if bytes.HasPrefix(content, b.bom) {", "if bytes.Contains(content, b.bom) {"}}},
+	{ID: "gate-break", Rules: []string{"R08.8"}, Note: "gate gives up at leading whitespace", Edits: []Edit{{"internal/json/parser.go", "\t\tif isSpace(raw[i]) {\n\t\t\tcontinue\n\t\t}", "\t\tif isSpace(raw[i]) {\n\t\t\tbreak\n\t\t}"}}},
+	{ID: "gate-no-tab", Rules: []string{"R08.8"}, Note: "gate does not step over TAB", Edits: []Edit{{"internal/json/parser.go", "\t\tif isSpace(raw[i]) {\n\t\t\tcontinue\n\t\t}", "\t\tif raw[i] == ' ' || raw[i] == '\\n' || raw[i] == '\\r' {\n\t\t\tcontinue\n\t\t}"}}},
+	{ID: "len-one-header", Rules: []string{"R08.1"}, Note: "a one-byte truncated header is refused", Edits: []Edit{{"internal/magic/text.go", "return inspected == lraw && lraw > 0", "return inspected == lraw && lraw > 1"}}},
+	{ID: "put-in-called-literal", Rules: []string{"R04.3"}, Note: "deferred release turned into an immediate call", Edits: []Edit{{"internal/json/parser.go", "\tdefer func() {\n\t\t// Avoid hanging on to too much memory in extreme input cases.", "\tfunc() {\n\t\t// Avoid hanging on to too much memory in extreme input cases."}}},
+	{ID: "gpkg-needle", Rules: []string{"R18.1"}, Note: "tar exclusion without the terminating NUL", Edits: []Edit{{"internal/magic/archive.go", "[]byte(\"/gpkg-1\\x00\")", "[]byte(\"/gpkg-1\")"}}},
+	{ID: "gpkg-window", Rules: []string{"R18.1"}, Note: "tar exclusion searched in the whole block", Edits: []Edit{{"internal/magic/archive.go", "bytes.Contains(raw[:100], []byte(\"/gpkg-1\\x00\"))", "bytes.Contains(raw[:512], []byte(\"/gpkg-1\\x00\"))"}}},
+	{ID: "zip-name-offset", Rules: []string{"R19.5"}, Note: "looped entries: name read at header + 31", Edits: []Edit{{"internal/magic/zip.go", "if !b.advance(nextHeader + 0x1E) {", "if !b.advance(nextHeader + 0x1F) {"}}},
+	{ID: "zip-follow-minus-one", Rules: []string{"R19.5"}, Note: "a search that found nothing is followed", Edits: []Edit{{"internal/magic/zip.go", "\t\tif nextHeader == -1 {\n\t\t\treturn false\n\t\t}\n", ""}}},
+	{ID: "zip-loop-dead", Rules: []string{"R19.5"}, Note: "looped entries never reached", Edits: []Edit{{"internal/magic/zip.go", "\t\tif nextHeader == -1 {", "\t\tif nextHeader != -1 {"}}},
+	{ID: "ndjson-count-from-one", Rules: []string{"R13.3"}, Note: "line counter starts at 1", Edits: []Edit{{"internal/magic/text.go", "lCount, objOrArr := 0, 0", "lCount, objOrArr := 1, 0"}}},
+	{ID: "setlimit-noop", Rules: []string{"R04.1"}, Note: "SetLimit stores nothing", Edits: []Edit{{"mimetype.go", "\tatomic.StoreUint32(&readLimit, limit)\n", "\t_ = limit\n"}}},
 }
 
 func copyTree(src, dst string) error {
